@@ -22,10 +22,51 @@ TARGETS = [
 ]
 
 
+def prop_modules():
+    '''Import every tools/sfv/props/cXX.py; returns [(pid, module_or_None, error_or_None)].'''
+    import importlib
+    out = []
+    d = os.path.join(os.path.dirname(os.path.abspath(__file__)), 'props')
+    for name in sorted(os.listdir(d)):
+        if len(name) == 6 and name.startswith('c') and name.endswith('.py') and name[1:3].isdigit():
+            pid = name[:3].upper()
+            try:
+                out.append((pid, importlib.import_module(f'sfv.props.{name[:-3]}'), None))
+            except Exception as e:  # noqa -- a broken module of another property must not break this run
+                out.append((pid, None, f'{type(e).__name__}: {e}'))
+    return out
+
+
 def regenerate(repo, coq_dir):
-    '''Rewrite coq/Gen/*.v from the current source; returns the list of broken targets.'''
+    '''Rewrite coq/Gen/*.v from the current source; returns the list of broken targets [(target, reason)].
+
+    Sources of generated files:
+      * the shared TARGETS above (py2v) -> Gen/Gen_util.v, Gen/Gen_type_blocks.v
+      * per property module: an optional literal `TARGETS` list (py2v, `out` must be Gen/Gen_cXX*.v) and an optional
+        function `generate(repo) -> {relative .v path under coq/: text}` (a custom fail-closed extractor; it raises when
+        the source no longer has the expected shape).  A failure is attributed to its owner property.'''
     from .core import write_if_changed
-    texts, broken = py2v.translate_targets(repo, TARGETS)
+    all_targets = [dict(t, owner=None) for t in TARGETS]
+    mods = prop_modules()
+    for pid, mod, err in mods:
+        if mod is not None:
+            for t in getattr(mod, 'TARGETS', ()):
+                all_targets.append(dict(t, owner=pid))
+    texts, broken = py2v.translate_targets(repo, all_targets)
+    for pid, mod, err in mods:
+        if mod is None:
+            continue
+        gen = getattr(mod, 'generate', None)
+        if gen is None:
+            continue
+        try:
+            for rel, text in gen(repo).items():
+                if not rel.startswith('Gen/'):
+                    raise ValueError(f'generate() of {pid} writes outside Gen/: {rel}')
+                texts[rel] = text
+        except Exception as e:  # noqa
+            broken.append(({'coq': f'{pid}.generate', 'module': f'props/{pid.lower()}.py', 'function': 'generate', 'owner': pid},
+                           f'{type(e).__name__}: {e}'))
     for out, text in texts.items():
         write_if_changed(os.path.join(coq_dir, out), text)
     return broken
